@@ -459,7 +459,7 @@ Lemma emit_tail i c d0 data fmt i' c' oc :
   | Ok (i2, c2, Some d) => let* content := convert data fmt in
                            Ok (i2, c2, Some (mkComp d content))
   | Ok (i2, c2, None) => Ok (i2, c2, None)
-  | Err e => if caught e then Err EBf3 else Err e
+  | Err e => if caught_emit e then Err EBf3 else Err e
   end = Ok (i', c', oc) ->
   exists od, exec i d0 c = Ok (i', c', od) /\
     match od with
@@ -471,7 +471,7 @@ Proof.
   - destruct (convert data fmt) as [blob|]; cbn [bind]; [|discriminate].
     intro H; inversion H; subst. exists (Some d). split; [reflexivity|]. exists blob. split; reflexivity.
   - intro H; inversion H; subst. exists None. split; reflexivity.
-  - destruct (caught e); discriminate.
+  - destruct (caught_emit e); discriminate.
 Qed.
 
 Lemma emit_spec data i c i' c' oc : emit data i c = Ok (i', c', oc) -> emit_result data i c i' c' oc.
@@ -491,7 +491,7 @@ Proof.
       | Ok (i2, c2, Some d) => let* content := convert (l0 :: rest) fmt in
                                Ok (i2, c2, Some (mkComp d content))
       | Ok (i2, c2, None) => Ok (i2, c2, None)
-      | Err e => if caught e then Err EBf3 else Err e
+      | Err e => if caught_emit e then Err EBf3 else Err e
       end = Ok (i', c', oc) ->
       exists od, Some fmt = Some fmt /\ ty < 256 /\ fmt < 256 /\
         exec i (initial_desc ty fmt hw intf) c = Ok (i', c', od) /\
@@ -808,8 +808,7 @@ Proof.
     + left. apply N.eqb_eq in E1. inversion EB. split; [exact E1|reflexivity].
     + destruct (from_be tyb =? BF3TYPE_LOADER) eqn:E2.
       * right. left. apply N.eqb_eq in E2. split; [exact E2|].
-        destruct (desc_get BF3TAG_INTF (c_desc c)) as [ib|] eqn:I; cbn [bind] in EB; [|discriminate].
-        apply desc_get_ok in I.
+        destruct (dget N.eqb BF3TAG_INTF (c_desc c)) as [ib|] eqn:I; cbn [bind] in EB; [|discriminate].
         destruct (rev_lookup (from_be ib) BF3INTF_names) as [nm|] eqn:R; [|discriminate].
         inversion EB. exists ib, nm. repeat split; assumption.
       * destruct (from_be tyb =? BF3TYPE_PERIPHERAL) eqn:E3; [|discriminate].
